@@ -173,8 +173,8 @@ Print Assumptions C16_bash_cur_is_subcommand_refuted.
 (** Byte-exact models of clap_complete/src/aot/shells/{elvish,powershell}.rs (Complete/ElvishModel.v,
     Complete/PowershellModel.v; the texts of the tree are kept in a [TextTree.ttree]; the common table
     specification is [PathTable.gi]).  Names are qualified: the two model files reuse the Rust names. *)
-From ClapModel Require Complete.TextTree Complete.PathTable Complete.ElvishModel Complete.ElvishProofs
-  Complete.PowershellModel Complete.PowershellProofs.
+From ClapModel Require Complete.TextTree Complete.PathTable Complete.PathTableLex Complete.PathTableBlocks
+  Complete.ElvishModel Complete.ElvishProofs Complete.PowershellModel Complete.PowershellProofs.
 
 (** the hypotheses of the coverage theorems below are satisfiable by a built two-level tree *)
 Theorem C16_table_covers_nonvacuous :
@@ -309,4 +309,64 @@ Theorem C16_powershell_empty_bin_refuted :
     forall es, ~ PathTable.infix (PowershellModel.case_block (PathTable.path_key [] [c_name sc]) es) script.
 Proof. exact PowershellProofs.powershell_empty_bin_refuted. Qed.
 Print Assumptions C16_powershell_empty_bin_refuted.
+(** [clap_complete::aot::generate] as a whole ([set_bin_name], [Command::build] on the command and on its
+    texts, the generator): a script is written whenever [build] succeeds *)
+Theorem C16_elvish_generate_total : forall c bin b t,
+  build (set_bin_name c bin) = Some b -> exists s, ElvishModel.generate_elvish c t bin = Some s.
+Proof. exact ElvishProofs.elvish_generate_total. Qed.
+Print Assumptions C16_elvish_generate_total.
+
+Theorem C16_powershell_generate_total : forall up c bin b t,
+  build (set_bin_name c bin) = Some b -> exists s, PowershellModel.generate_powershell up c t bin = Some s.
+Proof. exact PowershellProofs.powershell_generate_total. Qed.
+Print Assumptions C16_powershell_generate_total.
+
+(** the block of a path IS what the shell finds under the key it computes from the command line: the
+    script is the list [blocks] rendered block by block in order; when sibling names and aliases are
+    distinct (clap's own check) and no name contains the separator [;] ([no_semi]), the block keyed by the
+    [;]-joined path to a node [n] is in the list, every block with that key has [n]'s entries (whose
+    contents the theorems C16_<shell>_covers describe), and a first-match lookup returns it *)
+Theorem C16_elvish_lookup : forall c t bin ws ns n,
+  c_bin c = Some bin -> bin <> [] -> bins_built c -> siblings_ok c ->
+  PathTableLex.cmd_plain PathTableBlocks.no_semi c = true -> reach c ws ns n ->
+  exists tn,
+    ElvishModel.generate c t =
+      Some (ElvishModel.render bin
+              (List.concat (map (PathTableBlocks.render_block ElvishProofs.el_fmt)
+                                (PathTableBlocks.blocks ElvishProofs.el_fmt c t [])))) /\
+    In (PathTable.path_key bin ws, PathTable.entries ElvishProofs.el_fmt n tn)
+       (PathTableBlocks.blocks ElvishProofs.el_fmt c t []) /\
+    (forall e, In (PathTable.path_key bin ws, e) (PathTableBlocks.blocks ElvishProofs.el_fmt c t []) ->
+               e = PathTable.entries ElvishProofs.el_fmt n tn) /\
+    PathTableBlocks.lookup_block (PathTableBlocks.blocks ElvishProofs.el_fmt c t []) (PathTable.path_key bin ws) =
+      Some (PathTable.path_key bin ws, PathTable.entries ElvishProofs.el_fmt n tn).
+Proof. exact ElvishProofs.elvish_lookup. Qed.
+Print Assumptions C16_elvish_lookup.
+
+Theorem C16_powershell_lookup : forall up c t bin ws ns n,
+  c_bin c = Some bin -> bin <> [] -> bins_built c -> siblings_ok c ->
+  PathTableLex.cmd_plain PathTableBlocks.no_semi c = true -> reach c ws ns n ->
+  exists tn,
+    PowershellModel.generate up c t =
+      Some (PowershellModel.render bin
+              (List.concat (map (PathTableBlocks.render_block (PowershellProofs.ps_fmt up))
+                                (PathTableBlocks.blocks (PowershellProofs.ps_fmt up) c t [])))) /\
+    In (PathTable.path_key bin ws, PathTable.entries (PowershellProofs.ps_fmt up) n tn)
+       (PathTableBlocks.blocks (PowershellProofs.ps_fmt up) c t []) /\
+    (forall e, In (PathTable.path_key bin ws, e) (PathTableBlocks.blocks (PowershellProofs.ps_fmt up) c t []) ->
+               e = PathTable.entries (PowershellProofs.ps_fmt up) n tn) /\
+    PathTableBlocks.lookup_block (PathTableBlocks.blocks (PowershellProofs.ps_fmt up) c t [])
+                                 (PathTable.path_key bin ws) =
+      Some (PathTable.path_key bin ws, PathTable.entries (PowershellProofs.ps_fmt up) n tn).
+Proof. exact PowershellProofs.powershell_lookup. Qed.
+Print Assumptions C16_powershell_lookup.
+
+(** the hypotheses of the two lookup theorems are satisfiable (three-level tree with a hyphenated name,
+    a visible and a hidden alias; path through the visible alias) *)
+Theorem C16_table_lookup_nonvacuous :
+  c_bin ex_root = Some [112%N] /\ [112%N] <> @nil N /\ bins_built ex_root /\ siblings_ok ex_root /\
+  PathTableLex.cmd_plain PathTableBlocks.no_semi ex_root = true /\
+  reach ex_root [[120%N]; [99%N]] [[97%N; 45%N; 98%N]; [99%N]] ex_leaf.
+Proof. exact PathTableBlocks.lookup_hyps_example. Qed.
+Print Assumptions C16_table_lookup_nonvacuous.
 (* ---- end of the powershell / elvish block ---- *)
